@@ -234,7 +234,7 @@ func (w *Walker) walkSelection(parentDef *ast.Definition, it ast.Selection) {
 		if it.Name == "__typename" {
 			def = &ast.FieldDefinition{
 				Name: "__typename",
-				Type: ast.NamedType("String", nil),
+				Type: ast.NonNullNamedType("String", nil),
 			}
 		} else if parentDef != nil {
 			def = parentDef.Fields.ForName(it.Name)
